@@ -425,6 +425,10 @@ class C12(Check):
         return None
 
 
+    def bounded_stand_in(self, tier, undecided):
+        from checks import native
+        return native.stand_in(['C12.'], tier, undecided)
+
 CHECK = C12()
 
 
@@ -453,11 +457,14 @@ class PostResponse(E.EnvClass):
             return c.answer
         if I.choose_n(2, "json_outcome") == 1:
             raise PyRaise(I.make_exc("JSONDecodeError", V.VStr("no json")), "JSONDecodeError")
+        # any JSON value: an object bearing the request id (then it IS the server's single answer), an object with
+        # another / no id (an error page), or no object at all.  Type invariant of an `id` member: string, integer, null.
         d = I.fresh("other_body")
-        I.assume(z3.And(V.is_dict(d), Val.dsize(d) >= 0))
-        # a non-200/202 reply is not the answer to the request (the server answers at most once, in a 200 body or
-        # on the event stream): whatever it carries, it does not bear the request id
-        I.assume(z3.Or(z3.Not(z3.Select(Val.dkeys(d), K("id"))), z3.Select(Val.dvals(d), K("id")) != c.rid))
+        I.assume(z3.Or(V.is_dict(d), V.is_list(d), V.is_str(d), V.is_int(d), V.is_none(d), V.is_bool(d)))
+        I.assume(z3.Implies(V.is_dict(d), Val.dsize(d) >= 0))
+        idv = z3.Select(Val.dvals(d), K("id"))
+        I.assume(z3.Implies(z3.And(V.is_dict(d), z3.Select(Val.dkeys(d), K("id"))),
+                            z3.Or(V.is_int(idv), V.is_str(idv), V.is_none(idv))))
         return d
 
 
@@ -643,13 +650,8 @@ class SendRequest(Contract):
         P_, _ = I.get_field(self.transport, "_pending_requests")
         late = 1 if I.ghost.get("answer_state") == "in_flight" else 0
         total = self.count_for_request() + late
-        json_body_routed = self.mode == "other_status" and "json_outcome#0" in " ".join(I.trace)
-        synthesised = self.mode in ("silence", "exception") or (self.mode == "other_status" and not json_body_routed)
-        classes = {"synthesised-error-carries-str-of-an-integer-id": z3.And(V.is_int(self.rid), z3.BoolVal(synthesised)),
-                   "error-status-json-body-routed-verbatim-without-a-terminal-error": z3.BoolVal(json_body_routed)}
         I.oblige(self.name("exactly_one_message_bearing_the_request_id_is_delivered"), total == 1,
-                 watch={"request_id": self.rid, "delivered": V.VList(self.delivered) if self.delivered else V.VList([])},
-                 classes=classes)
+                 watch={"request_id": self.rid, "delivered": V.VList(self.delivered) if self.delivered else V.VList([])})
         I.oblige(self.name("request_is_not_left_pending"), z3.Not(z3.Select(Val.dkeys(P_), self.mid_str)))
         I.oblige(self.name("exactly_one_post"), z3.BoolVal(self.posts == 1))
 
